@@ -407,6 +407,20 @@ theorem optimize_terminates_moves (c : Nat → Nat → Int) (hsym : ∀ i j, c i
   optimize_terminates c hsym lb hlb improve
     (fun p q hp hq => improvesMove_improves c p q (hc p q hp hq)) p hnd
 
+/-- non-vacuity of the contract: on the ring metric of four nodes the 2-opt move `[0,2,1,3] → [0,1,2,3]`
+    (gain `4 − 2`… exactly: broken `(0,2),(1,3)` cost 2+2, joined `(0,1),(2,3)` cost 1+1) meets `ImprovesMove` -/
+def ringC (i j : Nat) : Int := min ((i : Int) - j).natAbs (4 - ((i : Int) - j).natAbs)
+
+example : ImprovesMove ringC [0, 2, 1, 3] [0, 1, 2, 3] :=
+  ⟨[(0, 2), (1, 3)], [(0, 1), (2, 3)], by decide, by decide, by decide, by decide, by decide, by decide, by decide,
+    by decide, by decide⟩
+
+/-- … and an `improve` function with that contract: the theorems apply and `optimize` ends in the cheaper tour -/
+def exImprove (p : List Nat) : Option (List Nat) := if p = [0, 2, 1, 3] then some [0, 1, 2, 3] else none
+
+example : optimize exImprove 5 [0, 2, 1, 3] = some [0, 1, 2, 3] ∧
+    closedCost ringC [0, 1, 2, 3] = 4 ∧ closedCost ringC [0, 2, 1, 3] = 6 := by decide
+
 /-- the 3-opt move of the repository's unit test is degree preserving -/
 example : degOk [0, 3, 2, 4, 5, 1] (surgery [0, 3, 2, 4, 5, 1] [(0, 3), (2, 4), (1, 5)] [(0, 5), (3, 4), (1, 2)]) = true ∧
     tryPath [0, 3, 2, 4, 5, 1] [(0, 3), (2, 4), (1, 5)] [(0, 5), (3, 4), (1, 2)] = some [0, 1, 2, 3, 4, 5] := by decide
